@@ -19,6 +19,7 @@ A case is the HIGH-LEVEL script (JSON); bytes, chunks and the driver line are de
 from __future__ import annotations
 
 import codecs
+import os
 import json
 
 _LITS = None
@@ -186,7 +187,7 @@ def harness_case(case):
             if f in r:
                 post[f] = r[f]
         ev = None
-        if r["mode"] in ("evack", "ackev"):
+        if "ed" in r:  # the answer (also) travels on the event stream, `ed` ticks after the POST was received
             ev = {"d": r["ed"], "cuts": r.get("cuts", []), "gap": r.get("gap", 0), "typed": r.get("typed", True),
                   "after_post_at_tie": bool(r.get("tiePostFirst")), "nospace": bool(r.get("nospace")), "multiline": bool(r.get("multiline"))}
         h.update(post=post, ev=ev)
@@ -206,6 +207,60 @@ def harness_case(case):
 def py_key(v):
     """str(id) as `_handle_message_event` computes it"""
     return None if v is None else str(v)
+
+
+NON_ANSWER_200 = ("foreign", "ack")
+
+
+def event_order(r):
+    """None: no answer on the event stream; "first": it is there before the POST completes;
+    "late": after it"""
+    if "ed" not in r:
+        return None
+    last = r["ed"] + len(r.get("cuts", [])) * r.get("gap", 0)
+    if last < r.get("d", 4) or (last == r.get("d", 4) and not r.get("tiePostFirst")):
+        return "first"
+    return "late"
+
+
+def late_duplicate(r):
+    """the server answers on the event stream AFTER the request has already ended with its POST
+    (a second answer): the transport cannot tell it from any other message any more"""
+    return event_order(r) == "late" and not acks(r)
+
+
+def acks(r):
+    """the POST completion only acknowledges the request (202, or a 200 whose body is not the answer)"""
+    return r["mode"] in ("silence", "evack", "ackev") or (r["mode"] == "200" and r.get("body200", "rpc") in NON_ANSWER_200)
+
+
+def model_req(r):
+    """the request in the Lean model's vocabulary (`Drv/SseReq.lean`)"""
+    key = py_key(r["id"])
+    e = {"key": key}
+    order = event_order(r)
+    # how the POST completes
+    if acks(r):
+        post, b = "accepted", None
+    elif r["mode"] == "200":
+        post, b = ("body" if r.get("body200", "rpc") == "rpc" else "unreadable"), None
+    elif r["mode"] == "status":
+        post = "other"
+        body = r.get("body", "text")
+        b = {"key": key, "ok": True} if body == "rpc" else {"key": None, "ok": True} if body == "detail" else None
+    else:
+        post, b = "exc", None
+    if b is not None or post == "other":
+        e["b"] = b
+    if order == "first":
+        e.update(mode="evpost", post=post)
+    elif post == "accepted":
+        e["mode"] = "ackev" if order == "late" else "silence"
+    else:
+        e["mode"] = {"body": "body", "unreadable": "unreadable", "other": "other", "exc": "exc"}[post]
+        if order == "late":
+            e["late"] = True
+    return e
 
 
 def model_line(case):
@@ -229,21 +284,7 @@ def model_line(case):
             data = msg_data(it)
             table.append({"d": [ord(c) for c in data], "key": py_key(it["m"].get("id")) if isinstance(it["m"], dict) else None,
                           "ok": bool(it.get("valid", True))})
-    reqs = []
-    for r in real_reqs(case):
-        m = {"200": "body", "evack": "evack", "ackev": "ackev", "silence": "silence", "status": "other", "exc": "exc"}[r["mode"]]
-        if m == "body" and r.get("body200", "rpc") != "rpc":
-            m = "unreadable"
-        e = {"key": py_key(r["id"]), "mode": m}
-        if m == "other":
-            body = r.get("body", "text")
-            if body == "rpc":
-                e["b"] = {"key": py_key(r["id"]), "ok": True}
-            elif body == "detail":
-                e["b"] = {"key": None, "ok": True}
-            else:
-                e["b"] = None
-        reqs.append(e)
+    reqs = [model_req(r) for r in real_reqs(case)]
     return {"m": "ssereq", "url": case.get("base", "http://h.test"), "T": case.get("T", T_DEFAULT), "cap": cap(),
             "conn": conn, "chunks": chunks, "close": close, "dec": table, "reqs": reqs}
 
@@ -337,7 +378,7 @@ def exit_after(case):
     at = 20
     for r in real_reqs(case):
         at = max(at, r["at"]) + r.get("d", 4) + r.get("ed", 0) + len(r.get("cuts", [])) * r.get("gap", 0) + 10
-        if r["mode"] in ("silence", "evack", "ackev"):
+        if acks(r) or "ed" in r:
             at += T  # also for an answer on the event stream: were it lost, the synthesised timeout error is the terminal
     plan, close = chunk_plan(case)
     if plan:
@@ -922,4 +963,48 @@ def grammar_cases(budget, rng):
                             r = mk_req(1, 3, {"mode": mode, "d": d + 2 * len(cuts), "ed": ed if mode == "evack" else ed + 2 * len(cuts)}, id=rid, nospace=nospace,
                                        multiline=multiline, typed=typed, cuts=cuts, gap=gap)
                             out.append(finish({"T": T, "tie": TIES[k % 3], "items": [EP, styled(msg_notif(k), k)], "t0": 1, "gap": 0, "reqs": [r, mk_req(2, 5, {"mode": "200"})]}))
+    return out
+
+
+POST_KINDS = [
+    {"mode": "200"}, {"mode": "200", "body200": "nonjson"}, {"mode": "200", "body200": "empty"},
+    {"mode": "silence"},                       # 202
+    {"mode": "status", "code": 500, "body": "text"}, {"mode": "status", "code": 404, "body": "empty"},
+    {"mode": "status", "code": 500, "body": "detail"}, {"mode": "status", "code": 400, "body": "rpc"},
+    {"mode": "exc"},
+]
+# a 200 whose body is not the answer (an acknowledgement document, a response to something else):
+# generated only when the code under test treats it as an acknowledgement (see findings/)
+POST_KINDS_200_ACK = [{"mode": "200", "body200": "foreign"}, {"mode": "200", "body200": "ack"}]
+GENERATE_200_NON_ANSWER = os.environ.get("VERIF_C12_200ACK", "") == "1"
+
+
+def race_matrix_cases(budget, rng):
+    """every order of {answer on the event stream, POST completion} x every way the POST can
+    complete, followed by two more requests on the same session (a stalled reader or sender shows
+    there), under the three tie orders"""
+    out = []
+    T = 64
+    D = 7
+    kinds = POST_KINDS + (POST_KINDS_200_ACK if GENERATE_200_NON_ANSWER else [])
+    k = 0
+    for kind in kinds:
+        for ed, tpf in ((None, False), (2, False), (D - 1, False), (D, False), (D, True), (D + 1, False), (D + 6, False)):
+            for tie in TIES:
+                for cuts, gap in (([], 0), ([25], 1)):
+                    k += 1
+                    if cuts and (ed is None or budget == "quick" and k % 3):
+                        continue
+                    if cuts and ed is not None and ed <= D <= ed + gap:
+                        continue
+                    spec = dict(kind, d=D)
+                    if ed is not None:
+                        spec.update(ed=ed, tiePostFirst=tpf, cuts=cuts, gap=gap, typed=bool(k % 2))
+                    rid = [7, "r1", 0, ""][k % 4]
+                    reqs = [mk_req(1, 3, spec, id=rid, form=("dict", "model")[k % 2]), mk_req(2, 4, {"mode": "200", "d": 2}),
+                            mk_req(3, 5, {"mode": "ackev", "d": 2, "ed": 5})]
+                    c = {"T": T, "tie": tie, "items": [EP, msg_notif(k)], "t0": 1, "gap": 0, "reqs": reqs}
+                    if ed == D:
+                        c["boundary"] = True  # same instant: which of the two the code sees first is not scripted; oracle only
+                    out.append(finish(c))
     return out
